@@ -106,3 +106,84 @@ pub extern "C" fn xp_arc_new(alloc: usize) -> CArc<ArcPay> {
 pub extern "C" fn xp_arc_drops(alloc: usize) -> usize {
     ARC_DROPS[alloc % 8].load(std::sync::atomic::Ordering::SeqCst)
 }
+
+// ---- values whose elements own memory of this module (no release function of their own) ----
+use cglue::boxed::{CBox, CSliceBox};
+use cglue::callback::OpaqueCallback;
+use cglue::iter::CIterator;
+use cglue::repr_cstring::ReprCString;
+use cglue::slice::CSliceRef;
+
+pub fn xp_text(i: usize) -> String {
+    format!("s{}-\u{e9}\u{20ac}-{}", i, "x".repeat(i % 5))
+}
+#[no_mangle]
+pub extern "C" fn xp_vec_str(n: usize) -> CVec<ReprCString> {
+    ledger::track_all(true);
+    let v: Vec<ReprCString> = (0..n).map(|i| ReprCString::from(xp_text(i))).collect();
+    CVec::from(v)
+}
+/// a vector created by the other module: read here, destroyed here (through the functions it carries)
+#[no_mangle]
+pub extern "C" fn xp_vec_str_consume(v: CVec<ReprCString>) -> u64 {
+    ledger::track_all(true);
+    let mut sum = 0u64;
+    for (i, s) in v.iter().enumerate() {
+        let t: &str = s.as_ref();
+        sum += t.len() as u64 * 1000 + (t == xp_text(i)) as u64;
+    }
+    drop(v);
+    sum
+}
+#[no_mangle]
+pub extern "C" fn xp_box_str(i: usize) -> CBox<'static, ReprCString> {
+    ledger::track_all(true);
+    CBox::from(ReprCString::from(xp_text(i)))
+}
+#[no_mangle]
+pub extern "C" fn xp_box_str_consume(b: CBox<'static, ReprCString>) -> u64 {
+    ledger::track_all(true);
+    let t: &str = (*b).as_ref();
+    let r = t.len() as u64;
+    drop(b);
+    r
+}
+#[no_mangle]
+pub extern "C" fn xp_slicebox(n: usize) -> CSliceBox<'static, ReprCString> {
+    ledger::track_all(true);
+    let v: Vec<ReprCString> = (0..n).map(|i| ReprCString::from(xp_text(i))).collect();
+    CSliceBox::from(v.into_boxed_slice())
+}
+static STATIC_BYTES: [u8; 5] = [9, 8, 7, 6, 5];
+#[no_mangle]
+pub extern "C" fn xp_slice_static() -> CSliceRef<'static, u8> {
+    CSliceRef::from(&STATIC_BYTES[..])
+}
+/// an iterator created here is drained by a callback created in the other module
+#[no_mangle]
+pub extern "C" fn xp_feed(n: u64, stride: u64, mut cb: OpaqueCallback<u64>) -> usize {
+    ledger::track_all(true);
+    use cglue::callback::FeedCallback;
+    (0..n).map(|i| i * stride + 1).feed_into_mut(&mut cb)
+}
+/// an iterator created in the other module is drained here
+#[no_mangle]
+pub extern "C" fn xp_sum_iter(it: CIterator<u64>) -> u64 {
+    ledger::track_all(true);
+    it.fold(0u64, |a, b| a.wrapping_mul(31).wrapping_add(b))
+}
+/// a callback and an iterator created here are handed to a function of the other module
+#[no_mangle]
+pub extern "C" fn xp_lend(n: u64, stop_at: usize, user: extern "C" fn(CIterator<u64>, OpaqueCallback<u64>) -> u64, seen: &mut u64) -> u64 {
+    ledger::track_all(true);
+    let mut got: Vec<u64> = vec![];
+    let mut it = (0..n).map(|i| i * 3 + 2);
+    let r = {
+        let mut f = |x: u64| { got.push(x); !(stop_at > 0 && got.len() >= stop_at) };
+        let cb: OpaqueCallback<u64> = (&mut f).into();
+        let cit: CIterator<u64> = (&mut it).into();
+        user(cit, cb)
+    };
+    *seen = got.iter().fold(0u64, |a, b| a.wrapping_mul(31).wrapping_add(*b)) + got.len() as u64 * 1_000_000;
+    r
+}
